@@ -36,7 +36,7 @@ import oracle
 from ser import Ids, Ser, Unsupported, cst, rat, ser, deser, env_text, store_text, bits_to_float
 
 LEAN_MODULE = "Optyx.Props.C01"
-EXTRA_MODULES = ["Optyx.Props.PinsC01"]   # transcription anchors (harness/source_pins.py)
+EXTRA_MODULES = ["Optyx.Props.PinsC01", "Optyx.Props.C01Source"]   # transcription anchors (harness/source_pins.py)
 THEOREMS = [
     "Optyx.Props.C01.evaluate_eq_denote",
     "Optyx.Props.C01.compile_total",
@@ -49,6 +49,12 @@ THEOREMS = [
     "Optyx.Props.C01.dictFn_sound",
     "Optyx.Props.C01.compiledValue_sound",
     "Optyx.Props.C01.compile_sound_real",
+    "Optyx.Props.BuildTie.compile_step",
+    "Optyx.Props.BuildTie.compileVec_step",
+    "Optyx.Props.BuildTie.step_unique",
+    "Optyx.Props.BuildTie.vec_unique",
+    "Optyx.Props.BuildTie.source_equations_solvable",
+    "Optyx.Props.C01.compile_sound_of_source_equations",
     "Optyx.Props.PinsC01.anchors",
 ]
 ASSUMPTIONS = [
